@@ -104,6 +104,11 @@ def _gen_read_timeout(rng, tier):
 
 
 def gen(rng, tier):
+    # the per-connection state seen by an application is part of the scope it is handed: it has to be the same on both workers,
+    # also across several connections of one worker (real serve(), loopback)
+    for k in range(2 if tier == "quick" else 8):
+        yield {"family": "c16:state-across-connections", "kind": "tierb-state", "source": "c16", "backends": ["asyncio", "trio"],
+               "lifespan_sets": rng.choice([None, "x"]), "plan": [rng.choice([1, 2, 3]) for _ in range(rng.choice([2, 3]))], "rep": k}
     yield from _gen_read_timeout(rng, tier)
     yield from _gen_backpressure(rng, tier)
     yield from _gen_sources(rng, tier)
@@ -305,7 +310,49 @@ def _with_seed(case, k):
     return c
 
 
+def _tierb_state(case, tally):
+    from ..world.realnet import ServeHarness, recv_until
+
+    views = {}
+    for be in ("asyncio", "trio"):
+        ls = [["recv"]] + ([["set_state", "from_lifespan", case["lifespan_sets"]]] if case["lifespan_sets"] else []) + \
+             [["send", {"type": "lifespan.startup.complete"}], ["recv"], ["send", {"type": "lifespan.shutdown.complete"}]]
+        h = ServeHarness(be, {"graceful_timeout": 0.5, "shutdown_timeout": 0.5, "keep_alive_timeout": 5.0},
+                         {"lifespan": ls, "default": [["recv_until_end"], ["count_and_respond_state"]]})
+        bodies = []
+        try:
+            h.start()
+            h.wait_event(lambda e: e[2] == "app" and e[3] == "send.", 3.0)
+            h.wait_ready()
+            for nreq in case["plan"]:  # one connection after the other, nreq keep-alive requests each
+                s = h.connect()
+                conn = []
+                if s is not None:
+                    for j in range(nreq):
+                        s.sendall(b"GET /c HTTP/1.1\r\nHost: h\r\n\r\n")
+                        d = recv_until(s, b"]", timeout=1.5)
+                        conn.append(d.split(b"\r\n\r\n", 1)[-1])
+                    s.close()
+                bodies.append(conn)
+            h.trigger_shutdown()
+            h.wait_done(4.0)
+        finally:
+            h.close()
+        for e in h.trace.events:
+            tally.events[e[2] + "." + e[3]] += 1
+        views[be] = bodies
+    tally.clause("compared")
+    tally.clause("state-compared")
+    if views["asyncio"] != views["trio"]:
+        return [{"clause": "compared", "sig": "C16.divergence/c16/state-across-connections", "backend": "both",
+                 "detail": "connections %r (requests per connection) against an application counting visits in scope['state']: asyncio answered %r, trio %r" % (
+                     case["plan"], views["asyncio"], views["trio"])}], [None]
+    return [], [None]
+
+
 def run_one(case, tally):
+    if case.get("kind") == "tierb-state":
+        return _tierb_state(case, tally)
     findings, obs_all = [], []
     norms = {}
     for be in ("asyncio", "trio"):
